@@ -769,6 +769,8 @@ class CompressedBytesColumn(Column):
     default).
     """
 
+    _default = emptybytes
+
     def __init__(self, level=3, module="zlib"):
         """
         :param level: the compression level to use.
@@ -1198,6 +1200,8 @@ class PickleColumn(WrappedColumn):
     overhead of pickling and unpickling.
     """
 
+    _default = None
+
     class Writer(WrappedColumnWriter):
         def __repr__(self):
             return "<PickleWriter>"
@@ -1233,6 +1237,9 @@ class PickleColumn(WrappedColumn):
 class ListColumn(WrappedColumn):
     def stores_lists(self):
         return True
+
+    def default_value(self, reverse=False):
+        return []
 
 
 class ListColumnReader(ColumnReader):
